@@ -22,6 +22,7 @@ const (
 	Word    Class = iota // needs a gap to its neighbours unless the neighbour is a bracket
 	Bracket              // '<', '>', size, quoted string, '.'
 	Header               // header tokens: always separated by a gap
+	HeaderKW             // wait bit and direction keywords: like Header, but may stand directly before '<' or '.'
 )
 
 type Tok struct {
@@ -38,7 +39,10 @@ func H(s string) Tok { return Tok{S: s, Class: Header} }
 
 // GapRequired reports whether tokens a and b must be separated by white space.
 func GapRequired(a, b Tok) bool {
-	if a.Class == Header || b.Class == Header {
+	if a.Class == HeaderKW && (b.S == "<" || b.S == ".") && b.Class == Bracket {
+		return false // a wait bit or direction keyword directly before the item or the terminator: "S1F1 W<L>." "S1F1 W."
+	}
+	if a.Class == Header || b.Class == Header || a.Class == HeaderKW || b.Class == HeaderKW {
 		return true
 	}
 	if a.Class == Bracket || b.Class == Bracket {
@@ -488,12 +492,12 @@ func MsgToks(st *NumStyle, m *ref.Msg, withSize bool) []Tok {
 	out := []Tok{KW(sf, Header)}
 	switch m.W {
 	case 1:
-		out = append(out, KW("W", Header))
+		out = append(out, KW("W", HeaderKW))
 	case 2:
-		out = append(out, KW("[W]", Header))
+		out = append(out, KW("[W]", HeaderKW))
 	}
 	if m.Dir != "" {
-		out = append(out, KW(m.Dir, Header))
+		out = append(out, KW(m.Dir, HeaderKW))
 	}
 	if m.Name != "" {
 		out = append(out, H(m.Name))
